@@ -49,7 +49,8 @@ func walkPieces(v reflect.Value, path string, out *[]piece) {
 	walkPieces0(v, path, out)
 	n := 0
 	for _, p := range *out {
-		if p.addr >= heapBase {
+		// static pieces are kept only when their extent is suspicious (capacity beyond length)
+		if p.addr >= heapBase || p.capb != p.size {
 			(*out)[n] = p
 			n++
 		}
@@ -206,7 +207,7 @@ func opMem(a []*sx) string {
 	var sb strings.Builder
 	fmt.Fprintf(&sb, "(ok %d %s) (problems", n, d0)
 	for _, q := range problems {
-		sb.WriteString(" " + strings.ReplaceAll(strings.ReplaceAll(q, " ", "_"), "(", "<"))
+		sb.WriteString(" " + pathTok(q))
 	}
 	sb.WriteString(") (inbuf")
 	b0 := uintptr(0)
@@ -298,6 +299,9 @@ func opKeep(a []*sx) string {
 		}
 	}
 	keepers = append(keepers, k)
+	for i := range problems {
+		problems[i] = pathTok(problems[i])
+	}
 	return fmt.Sprintf("(ok %d %s) (problems %s)", n, k.dump, strings.Join(problems, " "))
 }
 
